@@ -1353,7 +1353,11 @@ class Store:
         flow_updates.extend(flow_paths)
 
         self._apply_subschema_path(path)
-        self.get_path(path).apply_defaults()
+        target = self.get_path(path)
+        target.apply_defaults()
+        # the initial state of variables that only a glob port of another
+        # process declares can be set now that the sub-schemas exist
+        target.set_value(insertion['initial_state'])
 
         return process_updates, step_updates, flow_updates, topology_updates
 
